@@ -29,6 +29,13 @@ fn validate_user_id(user_id: &str) -> AuthResult<()> {
         return Err(AuthError::InvalidUserId);
     }
 
+    // The handlers use these ids as internal markers ("authentication bypassed", "no
+    // authentication configured") and skip their permission checks for them, so a real
+    // user must never be allowed to carry one.
+    if user_id == super::types::BYPASS_USER_ID || user_id == super::types::NO_AUTH_USER_ID {
+        return Err(AuthError::InvalidUserId);
+    }
+
     Ok(())
 }
 
